@@ -197,6 +197,33 @@ class World:
     def _handler(self, path, line, text) -> None:
         self.prints.append((str(path), line, text))
 
+    def _make_handler(self, kind: str | None):
+        """The print handler is 'any callable taking (path, line, text)': a bound method (default), a plain function, a
+        functools.partial, or a callable object - including one whose truth value is False (an empty collecting container)."""
+        sink = self.prints
+        if kind in (None, "method"):
+            return self._handler
+        if kind == "function":
+            def fn(path, line, text):
+                sink.append((str(path), line, text))
+            return fn
+        if kind == "partial":
+            import functools
+            return functools.partial(lambda tag, path, line, text: sink.append((str(path), line, text)), "tag")
+        if kind == "falsy_list":
+            class CollectingList(list):  # empty list: bool() is False
+                def __call__(self, path, line, text):
+                    sink.append((str(path), line, text))
+            return CollectingList()
+        if kind == "falsy_obj":
+            class Collector:
+                def __len__(self):
+                    return 0
+                def __call__(self, path, line, text):
+                    sink.append((str(path), line, text))
+            return Collector()
+        raise ValueError(kind)
+
     def run_read(self, op: dict) -> dict:
         """Executes one read op against the real reader. Returns {"ok", "direct", "transitive"|None, "exc"}."""
         cwd_abs = self.abs(op.get("cwd", "")) if op.get("cwd") is not None else self.scratch
@@ -208,7 +235,7 @@ class World:
         self.prints = []
         log = fsseam.start_open_log(self.scratch)
         out: dict = {"ok": False, "direct": None, "transitive": None, "exc": None}
-        handler = self._handler if op.get("handler", True) else None
+        handler = self._make_handler(op.get("handler_kind")) if op.get("handler", True) else None
         if op["op"] == "rn":
             kw = {}
             if "allow_coll" in op:
